@@ -307,7 +307,7 @@ def _mk_add(S, existing):
         fa = SOME(Opaque('OA', 'new')) if attrs_given else NONE
         fe = SOME(VecV((Opaque('f32x8', 'feat'),))) if feat_given else NONE
         upd = SOME(Opaque('Update', 'u')) if upd_given else NONE
-        vm.notes.update(kind='add', existing=existing, attrs_given=attrs_given, feat_given=feat_given, upd_given=upd_given, cls=cls.concrete())
+        vm.notes.update(kind='add', S=S, existing=existing, attrs_given=attrs_given, feat_given=feat_given, upd_given=upd_given, cls=cls.concrete())
         # reference execution on a copy of the state
         env_a = Env(vm)
         vm.notes['env'] = env_a
@@ -356,31 +356,101 @@ fn mk_store(shards: usize, notif: &Notif) -> TrackStore<TA, M, f32, Notif> {
 '''
 
 
-def _replay_merge_external(cex, v, vm):
-    # destination missing (or same track / failing merge): must not be reported as success
-    n = vm.notes
-    return STORE_PRELUDE + '''
+MERGE_SWEEP = r'''
+fn stored(store: &TrackStore<TA, M, f32, Notif>, id: u64) -> Option<(TA, Vec<Option<Vec<Option<f32>>>>, Vec<u64>)> {
+    store.get_store(id as usize).get(&id).map(|t| snapshot(t, &[0u64, 7u64]))
+}
+
 #[test]
 fn replay() {
-    let notif = Notif::default();
-    let mut store = mk_store(%(S)d, &notif);
-    store.add_track(build(10, &[0u64], &notif)).unwrap();
-    let src = build(20, &[0u64], &notif);
-    // 1. destination does not exist
-    let r = store.merge_external(999, &src, Some(&[0]), true);
-    assert!(r.is_err(), "merge into a missing destination must be reported as a failure");
-    // 2. same track
-    let same = build(10, &[0u64], &notif);
-    let r = store.merge_external(10, &same, Some(&[0]), true);
-    assert!(r.is_err(), "merge of a track into itself must be reported as a failure");
-    // 3. the merge itself fails
-    CALLS.store(0, Ordering::SeqCst);
-    FAIL_AT.store(0, Ordering::SeqCst);
-    let r = store.merge_external(10, &src, Some(&[0]), true);
-    FAIL_AT.store(-1, Ordering::SeqCst);
-    assert!(r.is_err(), "a failed merge must be reported as a failure");
+    // native sweep of the discrete choices of the query around the counterexample's ids:
+    // destination / source existing, missing or the same track; both flags; every fault position of the callbacks
+    let (a, b, missing): (u64, u64, u64) = (%(a)d, %(b)d, %(missing)d);
+    for fail_at in -1i64..4 { for hist in [false, true] { for remove in [false, true] {
+        for (dest, src) in [(a, b), (b, a), (a, missing), (missing, b), (a, a), (missing, missing)] {
+            let notif = Notif::default();
+            let mut store = mk_store(%(S)d, &notif);
+            store.add_track(build(a, &[0u64], &notif)).unwrap();
+            store.add_track(build(b, &[0u64, 7u64], &notif)).unwrap();
+            let (sa, sb) = (stored(&store, a), stored(&store, b));
+            let exists = |x: u64| x == a || x == b;
+            %(body)s
+        }
+    }}}
 }
-''' % dict(S=n.get('S', 1))
+'''
+
+OWNED_BODY = r'''CALLS.store(0, Ordering::SeqCst);
+            FAIL_AT.store(fail_at, Ordering::SeqCst);
+            let r = store.merge_owned(dest, src, Some(&[0]), remove, hist);
+            FAIL_AT.store(-1, Ordering::SeqCst);
+            let failed_cb = fail_at >= 0 && CALLS.load(Ordering::SeqCst) > fail_at;
+            let ctx = format!("dest {} src {} remove {} history {} fault position {}", dest, src, remove, hist, fail_at);
+            let total: usize = store.shard_stats().iter().sum();
+            match r {
+                Ok(opt) => {
+                    assert!(exists(dest) && exists(src) && dest != src && !failed_cb, "merge_owned reported success without a successful merge: {}", ctx);
+                    assert_eq!(opt.is_some(), remove, "the source is handed back exactly when removal was asked: {}", ctx);
+                    if let Some(t) = &opt { assert_eq!(t.get_track_id(), src, "the returned track is the source: {}", ctx); }
+                    assert_eq!(stored(&store, src).is_some(), !remove, "on success the source is removed exactly when asked: {}", ctx);
+                    assert_eq!(total, if remove { 1 } else { 2 }, "{}", ctx);
+                    if !remove { assert_eq!(stored(&store, src), if src == a { sa.clone() } else { sb.clone() }, "the source is unchanged: {}", ctx); }
+                }
+                Err(_) => {
+                    assert!(!exists(dest) || !exists(src) || dest == src || failed_cb, "merge_owned failed without a reason: {}", ctx);
+                    assert_eq!(total, 2, "a failed owned merge leaves both tracks stored: {}", ctx);
+                    assert_eq!(stored(&store, a), sa, "a failed owned merge leaves the tracks unchanged: {}", ctx);
+                    assert_eq!(stored(&store, b), sb, "a failed owned merge leaves the tracks unchanged: {}", ctx);
+                }
+            }'''
+
+EXTERNAL_BODY = r'''let _ = remove;
+            let src_track = if src == missing { build(missing, &[0u64], &notif) } else { store.get_store(src as usize).get(&src).unwrap().clone() };
+            let src_before = snapshot(&src_track, &[0u64, 7u64]);
+            CALLS.store(0, Ordering::SeqCst);
+            FAIL_AT.store(fail_at, Ordering::SeqCst);
+            let r = store.merge_external(dest, &src_track, Some(&[0]), hist);
+            FAIL_AT.store(-1, Ordering::SeqCst);
+            let failed_cb = fail_at >= 0 && CALLS.load(Ordering::SeqCst) > fail_at;
+            let ctx = format!("dest {} src {} history {} fault position {}", dest, src, hist, fail_at);
+            let total: usize = store.shard_stats().iter().sum();
+            assert_eq!(total, 2, "no stored track is removed or duplicated: {}", ctx);
+            assert_eq!(snapshot(&src_track, &[0u64, 7u64]), src_before, "the source is not modified: {}", ctx);
+            let other = if dest == a { b } else { a };
+            assert_eq!(stored(&store, other), if other == a { sa.clone() } else { sb.clone() }, "merging changes only the destination: {}", ctx);
+            match r {
+                Ok(()) => assert!(exists(dest) && dest != src && !failed_cb, "merge_external reported success without a successful merge: {}", ctx),
+                Err(_) => {
+                    assert!(!exists(dest) || dest == src || failed_cb, "merge_external failed without a reason: {}", ctx);
+                    assert_eq!(stored(&store, a), sa, "a failed merge leaves the store unchanged: {}", ctx);
+                    assert_eq!(stored(&store, b), sb, "a failed merge leaves the store unchanged: {}", ctx);
+                }
+            }'''
+
+
+def _sweep_ids(cex):
+    ids = []
+    for k, val in cex["inputs"].items():
+        nm = k.split('!')[0]
+        if (nm.endswith('_id') or nm in ('dest_id', 'src_id', 'new_id')) and isinstance(val, int) and val not in ids:
+            ids.append(val)
+    ids = ids[:2]
+    k = 11
+    while len(ids) < 3:
+        if k not in ids:
+            ids.append(k)
+        k += 1
+    return ids
+
+
+def _replay_merge_external(cex, v, vm):
+    a, b, missing = _sweep_ids(cex)
+    return STORE_PRELUDE + MERGE_SWEEP % dict(a=a, b=b, missing=missing, S=vm.notes.get('S', 1), body=EXTERNAL_BODY)
+
+
+def _replay_merge_owned(cex, v, vm):
+    a, b, missing = _sweep_ids(cex)
+    return STORE_PRELUDE + MERGE_SWEEP % dict(a=a, b=b, missing=missing, S=vm.notes.get('S', 1), body=OWNED_BODY)
 
 
 def _replay_future_get(cex, v, vm):
@@ -392,28 +462,41 @@ def _replay_add_missing(cex, v, vm):
     return STORE_PRELUDE + '''
 #[test]
 fn replay() {
-    // reference: build externally and insert
-    let n1 = Notif::default();
-    let mut s1 = mk_store(1, &n1);
-    CALLS.store(0, Ordering::SeqCst);
-    let t = s1.new_track(5).observation((%(cls)du64, %(attrs)s, %(feat)s, %(upd)s)).build().unwrap();
-    s1.add_track(t).unwrap();
-    let ref_calls = CALLS.load(Ordering::SeqCst);
-    let ref_sends = n1.n.load(Ordering::SeqCst);
-    // add() by id on a missing track
-    let n2 = Notif::default();
-    let mut s2 = mk_store(1, &n2);
-    CALLS.store(0, Ordering::SeqCst);
-    s2.add(5, %(cls)du64, %(attrs)s, %(feat)s, %(upd)s).unwrap();
-    let add_calls = CALLS.load(Ordering::SeqCst);
-    let add_sends = n2.n.load(Ordering::SeqCst);
-    assert_eq!(add_calls, ref_calls, "add() on a missing id must make the same callbacks as builder + add_track");
-    assert_eq!(add_sends, ref_sends, "add() on a missing id must emit the same notifications as builder + add_track");
-    let a = s1.get_store(5).get(&5).unwrap().get_attributes().clone();
-    let b = s2.get_store(5).get(&5).unwrap().get_attributes().clone();
-    assert_eq!(a, b, "the created track must equal the externally built one");
+    // every fault position of the callbacks (-1 = none): add() by id on a missing track vs. build externally + insert
+    for fail_at in -1i64..4 {
+        let n1 = Notif::default();
+        let mut s1 = mk_store(%(S)d, &n1);
+        CALLS.store(0, Ordering::SeqCst);
+        FAIL_AT.store(fail_at, Ordering::SeqCst);
+        let built = s1.new_track(5).observation((%(cls)du64, %(attrs)s, %(feat)s, %(upd)s)).build();
+        let ref_ok = match built { Ok(t) => { s1.add_track(t).unwrap(); true } Err(_) => false };
+        FAIL_AT.store(-1, Ordering::SeqCst);
+        let ref_calls = CALLS.load(Ordering::SeqCst);
+        let ref_sends = n1.n.load(Ordering::SeqCst);
+        let n2 = Notif::default();
+        let mut s2 = mk_store(%(S)d, &n2);
+        CALLS.store(0, Ordering::SeqCst);
+        FAIL_AT.store(fail_at, Ordering::SeqCst);
+        let r = s2.add(5, %(cls)du64, %(attrs)s, %(feat)s, %(upd)s);
+        FAIL_AT.store(-1, Ordering::SeqCst);
+        let add_calls = CALLS.load(Ordering::SeqCst);
+        let add_sends = n2.n.load(Ordering::SeqCst);
+        assert_eq!(r.is_ok(), ref_ok, "add() on a missing id succeeds exactly when building the track externally does (fault position {})", fail_at);
+        let stored: usize = s2.shard_stats().iter().sum();
+        if r.is_err() {
+            assert_eq!(stored, 0, "a failed add of a missing id must insert nothing (fault position {})", fail_at);
+            assert!(s2.fetch_tracks(&vec![5]).is_empty(), "a failed add of a missing id must insert nothing");
+            continue;
+        }
+        assert_eq!(stored, 1);
+        assert_eq!(add_calls, ref_calls, "add() on a missing id must make the same callbacks as builder + add_track");
+        assert_eq!(add_sends, ref_sends, "add() on a missing id must emit the same notifications as builder + add_track");
+        let a = s1.get_store(5).get(&5).unwrap().get_attributes().clone();
+        let b = s2.get_store(5).get(&5).unwrap().get_attributes().clone();
+        assert_eq!(a, b, "the created track must equal the externally built one");
+    }
 }
-''' % dict(cls=n['cls'], attrs="Some(5.0f32)" if n['attrs_given'] else "None", feat="Some(vec![])" if n['feat_given'] else "None",
+''' % dict(S=n.get('S', 1), cls=n['cls'], attrs="Some(5.0f32)" if n['attrs_given'] else "None", feat="Some(vec![])" if n['feat_given'] else "None",
            upd="Some(Upd)" if n['upd_given'] else "None")
 
 
@@ -448,7 +531,7 @@ for S, n, tier in [(1, 2, 'quick'), (2, 2, 'quick'), (3, 2, 'thorough'), (2, 3, 
            "merge_owned: missing source/destination, same track or failed merge -> error with both tracks stored and unchanged; success -> source removed iff asked",
            "%d shards, %d stored tracks, symbolic ids, both flags, every fault position" % (S, n),
            [TS + "merge_owned", TS + "merge_external", TS + "fetch_tracks", TS + "add_track", W], spec_calls=track_callbacks,
-           replay=_replay_merge_external, key='merge-owned-success-on-failure', max_paths=200000, timeout=1500),
+           replay=_replay_merge_owned, key='merge-owned-success-on-failure', max_paths=200000, timeout=1500),
     ]
 for S in (1, 2):
     MIR += [
